@@ -40,6 +40,7 @@ type Thread struct {
 	finished bool
 	exiting  bool
 	parent   int
+	sealed   int // depth of calls into packages instrumented in sealed mode
 }
 
 // Decision is one recorded choice with more than one option.
@@ -104,6 +105,7 @@ type state struct {
 	selectCost  int
 	watchdogHit bool
 	mapDesc     bool
+	enabledBuf  []*Thread
 	preemptIn   []string // function-name prefixes whose points may be preempted (nil = everywhere)
 	switchCost  int      // cost of a non-default choice when the running thread cannot continue (0 = preemption bounding, 1 = delay bounding)
 }
@@ -297,9 +299,6 @@ func Yield(op *Op) {
 		return
 	}
 	t.op = op
-	if s.window && len(s.preemptIn) > 0 && op.site == "" {
-		op.site = callerSite()
-	}
 	next := pickNext(t)
 	if next == nil {
 		// execution ended while we were parked: wait to be aborted
@@ -359,7 +358,7 @@ func pickNext(cur *Thread) *Thread {
 		}
 	}
 	for {
-		var enabled []*Thread
+		enabled := s.enabledBuf[:0]
 		var quiescers []*Thread
 		for _, th := range s.threads {
 			if th.finished || th.op == nil {
@@ -373,6 +372,7 @@ func pickNext(cur *Thread) *Thread {
 				enabled = append(enabled, th)
 			}
 		}
+		s.enabledBuf = enabled
 		if len(enabled) == 0 {
 			if len(quiescers) > 0 {
 				enabled = quiescers[:1]
@@ -406,7 +406,7 @@ func pickNext(cur *Thread) *Thread {
 		if len(enabled) == 1 || !s.window {
 			return enabled[0]
 		}
-		if curEnabled && !preemptible(cur.op) {
+		if curEnabled && !preemptible(cur, cur.op) {
 			return cur
 		}
 		cost := s.switchCost
@@ -430,24 +430,35 @@ func pickNext(cur *Thread) *Thread {
 	}
 }
 
-func preemptible(op *Op) bool {
-	if len(s.preemptIn) == 0 || op == nil || op.Kind == "event" || op.Kind == "point" {
+// preemptible: operations issued from inside a package instrumented in sealed
+// mode (the thread's seal depth is > 0) are switch points only when they block.
+func preemptible(t *Thread, op *Op) bool {
+	if t.sealed == 0 || op == nil || op.Kind == "event" || op.Kind == "point" {
 		return true
 	}
-	for _, p := range s.preemptIn {
-		if strings.HasPrefix(op.site, p) {
-			return true
-		}
-	}
 	return false
+}
+
+// SealEnter / SealLeave bracket every function of a sealed package (inserted by instr).
+func SealEnter() {
+	if s.active && s.cur != nil {
+		s.cur.sealed++
+	}
+}
+
+// SealLeave is the deferred counterpart of SealEnter.
+func SealLeave() {
+	if s.active && s.cur != nil && s.cur.sealed > 0 {
+		s.cur.sealed--
+	}
 }
 
 var siteCache = map[uintptr]string{}
 
 // callerSite returns the name of the innermost calling function outside the shims.
 func callerSite() string {
-	var pcs [8]uintptr
-	n := runtime.Callers(3, pcs[:])
+	var pcs [6]uintptr
+	n := runtime.Callers(4, pcs[:])
 	for _, pc := range pcs[:n] {
 		name, ok := siteCache[pc]
 		if !ok {
